@@ -325,6 +325,32 @@ func scenarios() []hx.Scenario {
 			}
 		}
 	}
+	// sub-millisecond spacing: scheduled times 0.2-0.7 ms apart and within one
+	// millisecond of each other, enqueued in either order, so that the loop looks
+	// at a head that is between 0.5 ms and 1 ms away, and the heap has to order
+	// times that agree to the millisecond
+	sub := []op{{'E', "a", 10}, {'E', "a", 12}, {'E', "b", 17}, {'E', "b", 15}, {'E', "c", 24}, {'D', "a", 0}, {'W', "", 3}}
+	var sub1, sub2, sub3 [][]op
+	for _, a := range sub {
+		sub1 = append(sub1, []op{a})
+		for _, b := range sub {
+			sub2 = append(sub2, []op{a, b})
+			for _, c := range sub {
+				sub3 = append(sub3, []op{a, b, c})
+			}
+		}
+	}
+	for _, s1 := range append(append(append([][]op{}, sub1...), sub2...), sub3...) {
+		add([][]op{s1}, len(s1) > 2 && s1[0].kind != 'E', mc.TimerGo123, nil, "tl:sub:")
+	}
+	for _, s1 := range append(append([][]op{}, sub1...), sub2...) {
+		for _, s2 := range sub1 {
+			add([][]op{s1, s2}, len(s1) > 1, mc.TimerGo123, nil, "tl:sub:")
+			if len(s1) == 1 {
+				add([][]op{s1, s2}, false, mc.TimerGo123, nil, "sub:")
+			}
+		}
+	}
 	// thorough: one client with three operations against a second with one
 	var seq3 [][]op
 	for _, a := range alpha {
